@@ -196,7 +196,7 @@ def judge_mask_ops(obs, mask, box, image, fill, copy, dmask, tag):
                                 e = (imv[y, x] if inside else fill) * wgt
                                 if not (g == e or (g != g and e != e)):
                                     ok, why = False, f'weight>0 pixel ({j},{i}): got {g!r}, expected {e!r}'
-                            else:
+                            elif wgt == 0:
                                 if not (g == 0 or g == fill or (g != g and fill != fill)):
                                     ok, why = False, f'zero-weight pixel ({j},{i}): got {g!r}, expected 0 or fill {fill!r}'
             obs.check(ok, 'multiply-wrong', f'multiply: box {box} image {shape} fill {fill} ({tag}): {why}', 'multiply')
@@ -232,6 +232,12 @@ def weights(nrng, h, w, pattern):
     if pattern == 'frac':
         d = np.round(nrng.uniform(0.01, 1, (h, w)), 3)
         d[nrng.random((h, w)) < 0.3] = 0.0
+        return d
+    if pattern == 'signed':                   # user-built masks (e.g. difference masks) may hold negative or NaN weights
+        d = np.round(nrng.uniform(-1, 1, (h, w)), 3)
+        d[nrng.random((h, w)) < 0.2] = 0.0
+        if d.size:
+            d[nrng.random((h, w)) < 0.1] = np.nan
         return d
     if pattern == 'int':                      # compound masks are integer arrays
         return (nrng.random((h, w)) < 0.6).astype(int)
@@ -298,7 +304,7 @@ def run_case(case, obs):
         if nrng.random() < 0.6:
             x0, y0 = int(nrng.integers(-12, 40)), int(nrng.integers(-12, 40))
         box = (x0, x0 + w, y0, y0 + h)
-        pat = ['ones', 'frac', 'int', 'checker'][nrng.integers(4)]
+        pat = ['ones', 'frac', 'int', 'checker', 'signed'][nrng.integers(5)]
         mask = RegionMask(weights(nrng, h, w, pat), RegionBoundingBox(*box))
         tag = pat
     shape = (int(nrng.integers(0, 48)), int(nrng.integers(0, 64)))
